@@ -432,6 +432,42 @@ fn fault_doc_run(t: Tier, w: &mut World, didx: usize, chunk: usize, sink: &mut S
             branches.push(vec![fault("f.doc", "setbyte", json!({"pos":0,"val":pre})), read.clone()]);
         }
     }
+    if kind < 4 {
+        // Non-canonical coordinates: x + p denotes the same field element as x, but only x is an
+        // encoding. x + p fits 32 bytes only for x < 2^256 - p (about 2^224), which no sampled key
+        // has - so the points with the smallest x on the curve are used: the (whole) document is
+        // replaced by the encoding of such a point with x + p in place of x. Must be refused.
+        let (pp, pts) = rsm2::with_curve(|c| {
+            let mut v = vec![];
+            for x0 in 0u32..64 {
+                let mut enc = vec![2u8];
+                enc.extend_from_slice(&be32(&BigUint::from(x0)));
+                if let Ok(Some((x, y))) = c.decode_point(&enc) {
+                    v.push((x, y));
+                }
+                if v.len() >= 6 {
+                    break;
+                }
+            }
+            (c.p.clone(), v)
+        });
+        for (x, y) in pts {
+            let xw = &x + &pp;
+            let doc: Vec<u8> = if kind == 0 || kind == 2 {
+                let mut d = vec![if y.bit(0) { 3u8 } else { 2u8 }];
+                d.extend_from_slice(&be32(&xw));
+                d
+            } else {
+                let mut d = vec![4u8];
+                d.extend_from_slice(&be32(&xw));
+                d.extend_from_slice(&be32(&y));
+                d
+            };
+            let doc = if kind >= 2 { hex::encode(&doc).into_bytes() } else { doc };
+            w.bump("fault.non-canonical-small-x-plus-p");
+            branches.push(vec![set("f.doc", &doc), read.clone()]);
+        }
+    }
     if kind == PK_ENCS.len() {
         // private key bytes: boundary values
         let nn = n_sm2();
